@@ -29,6 +29,30 @@ def examples(tier):
     return 8000 if tier == "quick" else 200000
 
 
+def grid(tier):
+    """thorough: the whole layout lattice (for one name / kind / umask), enumerated exhaustively"""
+    if tier != "thorough":
+        return
+    import itertools
+    for lay in sorted(gen.LAYOUTS):
+        vols, _home = gen.LAYOUTS[lay]
+        for fvol in ["/"] + vols:
+            for top, us, alt, ht, xdg, opt, reach in itertools.product(
+                    gen.TOP_STATES, ["absent", "dir", "file"], ["absent", "dir", "file", "link_other"],
+                    ["absent", "exists", "link_other"], ["unset", "empty", "custom", "othervol"],
+                    ["none", "trash_dir_same", "trash_dir_other", "trash_dir_link", "fallback_both",
+                     "fallback_flag_only", "fallback_env_only"],
+                    ["direct", "rel", "via_cross_link", "link_slash"]):
+                if us != "absent" and top in ("absent", "file"):
+                    continue
+                yield {"layout": lay, "uid": 1000, "fvol": fvol, "top": top, "uid_state": us,
+                       "alt": alt, "hometrash": ht, "xdg": xdg, "home_set": True, "opt": opt,
+                       "reach": reach, "kind": "file", "name": "entry", "umask": 0o022, "subdir": "w"}
+
+
+EXHAUSTIVE_GRID = True
+
+
 @st.composite
 def strategy_(draw, tier):
     lay = draw(st.sampled_from(sorted(gen.LAYOUTS)))
